@@ -109,6 +109,20 @@ func (p *Prog) constFuncMap(g *ssa.Global) []ssa.ConstMapEntry {
 func (p *Prog) setNonNilHook() {
 	ssa.ConstFuncMapHook = p.constFuncMap
 	ssa.KnownNonNilHook = func(v ssa.Value) bool {
+		// strings.Split, and strings.SplitN with a constant n != 0, return a non-nil slice (n == 0 is the only nil result)
+		if c, isCall := v.(*ssa.Call); isCall {
+			switch calleeName(&c.Call) {
+			case "strings.Split", "strings.SplitAfter":
+				return true
+			case "strings.SplitN", "strings.SplitAfterN":
+				if len(c.Call.Args) == 3 {
+					if k, isK := c.Call.Args[2].(*ssa.Const); isK && k.Value != nil && k.Int64() != 0 {
+						return true
+					}
+				}
+			}
+			return false
+		}
 		u, ok := v.(*ssa.UnOp)
 		if !ok || u.Op != token.MUL {
 			return false
